@@ -18,7 +18,7 @@ import lena.structures
 import lena.variables
 
 from ..kernel import RunResult, StepBudget, StepBudgetExceeded, summarize, exception_origin
-from ..seams.flow import ProbeFC, RaisesAt, Numbering
+from ..seams.flow import ProbeFC, RaisesAt, Numbering, FailsFor
 
 PROPERTY = "C05"
 LEVEL = "exploration"
@@ -52,7 +52,7 @@ FAULT_KINDS = ["LenaStopFill-from-Slice-mid-flow", "accumulator-exception", "ill
 EXPECTED_PROBES = ["slice-stops-before-flow-end", "slice-stop-inside-split-block", "runif-selected",
                    "filter-rejects", "split-multi-block", "sibling-stops-mid-flow", "watchdog-armed", "adapter-renamed-method",
                    "adapter-ill-typed", "adapter-decoy-standard-method",
-                   "deep-copied-sequence-with-stateful-element"]
+                   "deep-copied-sequence-with-stateful-element", "adapter-element-is-falsy"]
 
 ACCS = ["sum", "dsum", "mean", "mean-pass", "mean-sumseq", "vmc", "vectorize", "store",
         "store-items", "groupby", "histogram", "count", "probe"]
@@ -73,6 +73,8 @@ def gen_scenario(tape):
         # the adapter must use the name it was given
         sc.decoy = bool(tape.draw(2, "decoy-standard-method"))
         sc.n = tape.draw(6, "flowlen")
+        # the element is an empty container (its truth value is False): still an element
+        sc.falsy = tape.chance(1, 3, "element-is-falsy")
         return sc
     sc.acc = tape.choice(ACCS, "acc")
     sc.with_context = bool(tape.draw(2, "with-context")) or sc.acc == "groupby"
@@ -82,7 +84,11 @@ def gen_scenario(tape):
         k = tape.weighted([(3, "call"), (2, "variable"), (3, "filter"), (3, "slice"), (2, "runif")],
                           "pre")
         if k == "filter":
-            sc.pre.append(("filter", tape.draw(8, "pred")))
+            # how the selector is given: a function, a Selector (which may be told to take an
+            # exception of its function for False), a list / tuple of selectors, a class
+            sc.pre.append(("filter", tape.draw(8, "pred"),
+                           tape.weighted([(4, "function"), (1, "selector"), (2, "selector-noraise"),
+                                          (1, "or-list"), (1, "and-tuple"), (1, "class")], "selector-form")))
         elif k == "slice":
             a = tape.draw(4, "slice-start")
             b = tape.draw(7, "slice-len")
@@ -177,6 +183,23 @@ PREDS = [
     lambda v: first(v),
     lambda v: [first(v)] if first(v) > 0 else [],
 ]
+
+
+def make_selector(st):
+    pred = PREDS[st[1]]
+    form = st[2] if len(st) > 2 else "function"
+    if form == "function":
+        return pred
+    if form == "selector":
+        return lena.flow.Selector(pred)
+    if form == "selector-noraise":
+        # the function fails for some values: with raise_on_error=False that means "not selected"
+        return lena.flow.Selector(FailsFor(pred, lambda v: first(v) % 4 == 1), raise_on_error=False)
+    if form == "or-list":
+        return [pred, lambda v: first(v) % 5 == 0]
+    if form == "and-tuple":
+        return (pred, lambda v: first(v) % 5 != 0)
+    return int if st[1] % 2 else float      # a class: the data part is an instance of it
 
 
 class Trailer(object):
@@ -286,7 +309,7 @@ def make_chain(sc, fills):
         elif st[0] == "callcount":
             els.append(Numbering())
         elif st[0] == "filter":
-            els.append(lena.flow.Filter(PREDS[st[1]]))
+            els.append(lena.flow.Filter(make_selector(st)))
         elif st[0] == "slice":
             els.append(lena.flow.Slice(*st[1]))
         else:
@@ -574,10 +597,28 @@ class ObjCallable(Obj):
         return iter([("decoy",)])
 
 
+class ObjEmpty(Obj):
+    """an element that is also an empty container"""
+
+    def __len__(self):
+        return 0
+
+
+class ObjCallableEmpty(ObjCallable):
+    def __len__(self):
+        return 0
+
+
+FALSY = [False]
+
+
 def make_obj(A, decoy):
     if not decoy:
-        return Obj()
-    o = ObjCallable() if A in ("Call", "SourceEl") else Obj()
+        return ObjEmpty() if FALSY[0] else Obj()
+    if FALSY[0]:
+        o = ObjCallableEmpty() if A in ("Call", "SourceEl") else ObjEmpty()
+    else:
+        o = ObjCallable() if A in ("Call", "SourceEl") else Obj()
     if A == "Run":
         o.run = lambda fl: iter([("decoy",)])
     elif A == "FillInto":
@@ -677,6 +718,9 @@ def adapter_case(sc, res):
     flow = list(range(n))
     if getattr(sc, "decoy", False):
         res.probe("adapter-decoy-standard-method")
+    FALSY[0] = bool(getattr(sc, "falsy", False))
+    if FALSY[0]:
+        res.probe("adapter-element-is-falsy")
     res.say("adapter %s, case %d, method name %r, flow %r" % (A, sc.case, name, flow))
     res.nontrivial = True
     log = res.log
